@@ -10,8 +10,10 @@ import ExoVerif.Model.DistributionParams
          distr.denom <native> <mintDenom>     (native denomination and the genesis MintDenom; without it both are "")
          distr.mintparams <tx|srv> <denom> <reward|nil> <id>   x/exomint MsgUpdateParams (tx: ValidateBasic first; srv: the
                                                         handler directly) → ok|rej <denom> <reward> <id> (params in force)
-         distr.distrparams <id> <taxRaw>                x/feedistribution MsgUpdateParams → ok|rej <id> <taxRaw>
-   strings of the two params ops are escaped (`%` = empty, %20 space, %09 tab, %25 percent).
+         distr.distrparams <tx|srv> <id> <taxRaw|nil>   x/feedistribution MsgUpdateParams (tx: ValidateBasic first; srv: the handler
+                                                        directly) → ok|rej:tax|rej:epoch <id> <taxRaw> (params in force)
+         distr.distrvb <id> <taxRaw|nil>                x/feedistribution MsgUpdateParams.ValidateBasic alone → ok|rej
+   strings of the params ops are escaped (`%` = empty, %20 space, %09 tab, %25 percent).
    The configuration a block runs under is `cfgOf native params` (Model/DistributionParams.lean): it follows every
    accepted parameter update.
 -/
@@ -99,12 +101,19 @@ def step (d : DS) (w : List String) : DS × String :=
       | some mp => ({ d with params := { d.params with mint := mp } }, "ok " ++ showMint mp)
       | none => (d, "rej " ++ showMint d.params.mint)
     | none => (d, "bad-op")
-  | ["distr.distrparams", id, tx] =>
-    match parseInt? tx with
-    | some tx =>
-      match distrUpdateParams (knownId d.es) d.params.distr { id := unesc id, tax := tx } with
-      | some dp => ({ d with params := { d.params with distr := dp } }, "ok " ++ showDistr dp)
-      | none => (d, "rej " ++ showDistr d.params.distr)
+  | ["distr.distrparams", path, id, tx] =>
+    let tax? : Option (Option Int) := if tx == "nil" then some none else (parseInt? tx).map some
+    match tax? with
+    | some tax =>
+      match distrDeliver (path == "tx") (knownId d.es) d.params.distr { id := unesc id, tax := tax } with
+      | .ok dp => ({ d with params := { d.params with distr := dp } }, "ok " ++ showDistr dp)
+      | .error .taxOutOfRange => (d, "rej:tax " ++ showDistr d.params.distr)
+      | .error .epochNotFound => (d, "rej:epoch " ++ showDistr d.params.distr)
+    | none => (d, "bad-op")
+  | ["distr.distrvb", id, tx] =>
+    let tax? : Option (Option Int) := if tx == "nil" then some none else (parseInt? tx).map some
+    match tax? with
+    | some tax => (d, if DistrMsg.validateBasic { id := unesc id, tax := tax } then "ok" else "rej")
     | none => (d, "bad-op")
   | ["distr.epoch", id, st, dur, cur, curSt, started, hgt] =>
     match parseInt? st, parseInt? dur, parseInt? cur, parseInt? curSt, parseInt? hgt with
